@@ -241,6 +241,9 @@ class FakeProcess(object):
         sim = self.sim
         sim.prim_point('process.start')
         mp = self.mp
+        parent = mp.current_proc()
+        if parent is not None and parent.daemon:
+            raise AssertionError('daemonic processes are not allowed to have children')
         mp._pid += 1
         self.pid = mp._pid
         mp.processes.append(self)
@@ -253,7 +256,7 @@ class FakeProcess(object):
         else:
             call = lambda: target(*self._args, **self._kwargs)     # noqa
         delay = 0.0
-        if mp.slow_start > 0 and mp.tape.draw(3) == 2:
+        if mp.slow_start > 0 and self.name != 'helper' and mp.tape.draw(3) == 2:
             delay = mp.slow_start
             sim.run.fault('worker_slow_start')
 
@@ -264,7 +267,7 @@ class FakeProcess(object):
                 call()
             finally:
                 # an orderly exit may take a while (non-daemon threads, atexit handlers); a SIGKILL does not wait
-                if mp.exit_delay and not self.task.killed:
+                if mp.exit_delay and not self.task.killed and self.name != 'helper':
                     sim.sleep(mp.exit_delay)
         self.task = sim.spawn(body, name='%s[%d]' % (self.name, self.pid), proc=self, start=False)
         self.task.on_exit = self._on_exit
